@@ -755,6 +755,11 @@ def _judge_values(op, dim, res, prop, sig, var, cases, exp, units, gain, out, ex
                               {"sig": sig, "variant": name, "got": repr(skel)[:200], "expected": repr(eskel)[:200]})
                 return
             rowmap = awk.struct_rows(struct) if not var.get("record") else [REC]
+    except R.NotRepresentable:
+        # the monitor's own readout: the result (the zero vector in theta / eta storage after scaling by 0) has no
+        # canonical Cartesian form
+        res.count("skip_result_not_representable")
+        return
     except Exception as e:
         res.violation(f"{prop}/malformed-array-result variant={_vclass(name)} op={op.name}",
                       {"sig": sig, "variant": name, "problem": f"{type(e).__name__}: {e}"[:300]})
